@@ -122,12 +122,15 @@ func (s *Streamer) parseEvents(ctx context.Context, events <-chan replication.Bi
 
 	commit := func(ev replication.BinlogEvent) error {
 		now := pos
-		pos.Offset = ev.NextPosition()
 		next := pos
+		next.Offset = ev.NextPosition()
 		tran := newTransaction(now, next, int64(ev.Timestamp()), tranEvents)
 		if err = s.sendTransaction(tran); err != nil {
+			// The transaction was not accepted: keep pos at its start so that
+			// the next Stream call delivers it again instead of skipping it.
 			return fmt.Errorf("sendTransaction error: %v", err)
 		}
+		pos = next
 		tranEvents = nil
 		autocommit = true
 		return nil
